@@ -39,7 +39,10 @@ func connectAPI(id uint16) (*vedirectapi.RegisterApi, *sport.Port, error) {
 }
 
 func fieldsString(fl veconst.FieldList) string {
-	m := fl.Fields()
+	return fieldMapString(fl.Fields())
+}
+
+func fieldMapString(m map[veconst.Field]bool) string {
 	type kv struct {
 		idx int
 		set bool
@@ -126,14 +129,24 @@ func runFieldList() {
 				raws = append(raws, uint64(v))
 			}
 		}
-		// 1. the factory directly
+		// 1. the factory directly; the field set handed out for the previous value is kept and must still read
+		// the same after the next value was decoded (two decoded sets alive at once)
+		var prevSet map[veconst.Field]bool
+		var prevStr string
+		var prevRaw uint64
 		for _, raw := range raws {
 			fl, err := t.fl.F.NewFieldList(uint(raw))
 			if err != nil {
 				fmt.Fprintf(out, "%s direct %d ERR - 1\n", t.fl.Name, raw)
 				continue
 			}
+			cur := fl.Fields()
+			curStr := fieldMapString(cur)
 			fmt.Fprintf(out, "%s direct %d %s - 1\n", t.fl.Name, raw, fieldsString(fl))
+			if prevSet != nil && fieldMapString(prevSet) != prevStr {
+				fmt.Fprintf(out, "%s altered %d %s - 1\n", t.fl.Name, prevRaw, fieldMapString(prevSet))
+			}
+			prevSet, prevStr, prevRaw = cur, curStr, raw
 		}
 		// 2. through the register API (value handler -> FieldListValue -> CommaString)
 		if t.reg == "" {
